@@ -8,6 +8,7 @@ package main
 import (
 	"bytes"
 	"crypto"
+	rand2 "crypto/rand"
 	"crypto/sha256"
 	"crypto/x509"
 	"encoding/asn1"
@@ -19,6 +20,7 @@ import (
 	"os/exec"
 	"path/filepath"
 	"sync"
+	"time"
 
 	"github.com/foxboron/go-uefi/authenticode"
 	"github.com/foxboron/go-uefi/pkcs7"
@@ -26,7 +28,33 @@ import (
 
 func init() { families["p7mut"] = runP7Mut }
 
+// sameNameCert: a certificate of somebody else (another key, another serial number) that carries the same subject and issuer name
+// as c.  Names are not identities: nothing signed by c's key verifies against it.
+var sameNameCache = map[string]*x509.Certificate{}
+
+func sameNameCert(c *x509.Certificate) *x509.Certificate {
+	if c == nil {
+		return nil
+	}
+	id := string(c.Raw)
+	if x, ok := sameNameCache[id]; ok {
+		return x
+	}
+	k := testKey("k3")
+	tmpl := &x509.Certificate{SerialNumber: big.NewInt(0x51a3e), RawSubject: c.RawSubject, RawIssuer: c.RawSubject,
+		NotBefore: time.Date(2020, 1, 1, 0, 0, 0, 0, time.UTC), NotAfter: time.Date(2099, 1, 1, 0, 0, 0, 0, time.UTC),
+		KeyUsage: x509.KeyUsageDigitalSignature, BasicConstraintsValid: true, SignatureAlgorithm: x509.SHA256WithRSA}
+	der, err := x509.CreateCertificate(rand2.Reader, tmpl, tmpl, &k.PublicKey, k)
+	if err != nil {
+		return nil
+	}
+	x, _ := x509.ParseCertificate(der)
+	sameNameCache[id] = x
+	return x
+}
+
 type p7Source struct {
+	image []byte // for signatures taken from an image file: the file, verified through the image entry points as well
 	name    string
 	der     []byte
 	cert    *x509.Certificate   // the signer's certificate
@@ -147,6 +175,7 @@ func p7SourceOf(name string) (*p7Source, error) {
 			return nil, fmt.Errorf("no signature in fixture: %v", e)
 		}
 		s.der = sigs[0].Certificate
+		s.image = b
 		s.cert = certFromPEMFile(repo + "/authenticode/testdata/db.pem")
 		s.others = []*x509.Certificate{A, certFromPEMFile(repo + "/tests/data/signatures/secureboot/keys/KEK/KEK.pem")}
 	case "fixture-sbvarsign":
@@ -195,6 +224,7 @@ func p7SourceOf(name string) (*p7Source, error) {
 			return nil, fmt.Errorf("no signature in fixture: %v", e)
 		}
 		s.der = sigs[0].Certificate
+		s.image = b
 		s.cert = certFromPEMFile(repo + "/tests/data/signatures/secureboot/keys/db/db.pem")
 		s.others = []*x509.Certificate{A, certFromPEMFile(repo + "/tests/data/signatures/secureboot/keys/KEK/KEK.pem")}
 	default:
@@ -410,6 +440,10 @@ func runP7Mut(sc M) {
 		what = fmt.Sprintf("flip bit %d of byte %d", bit, pos)
 	}
 	certs := append([]*x509.Certificate{src.cert}, src.others...)
+	for len(certs) < 3 {
+		certs = append(certs, nil)
+	}
+	certs = append(certs, sameNameCert(src.cert)) // another party's certificate under the signer's name
 	var cases []M
 	for ci, c := range certs {
 		if c == nil {
@@ -429,6 +463,37 @@ func runP7Mut(sc M) {
 			return nil
 		})
 		cases = append(cases, M{"obs": obs, "lib": verdict(ok, verr, o), "cert": ci, "panic": o.Panic})
+		if src.image != nil && what == "unchanged" {
+			// the same question through the image entry points (the file is the one the signature was made for)
+			for _, via := range []string{"image"} {
+				callStart(id, "Verify("+via+")", M{"cert": ci})
+				o, _ := guard(func() error {
+					ok, verr = false, nil
+					if via == "image" {
+						pe, err := authenticode.Parse(bytes.NewReader(src.image))
+						if err != nil {
+							verr = err
+							return nil
+						}
+						ok, verr = pe.Verify(c)
+						return nil
+					}
+					a, err := authenticode.ParseAuthenticode(mut)
+					if err != nil {
+						verr = err
+						return nil
+					}
+					pe, err := authenticode.Parse(bytes.NewReader(src.image))
+					if err != nil {
+						verr = err
+						return nil
+					}
+					ok, verr = a.Verify(c, pe.Open()) // the hash input of the image, as PECOFFBinary.Verify hands it over
+					return nil
+				})
+				cases = append(cases, M{"obs": obs, "lib": verdict(ok, verr, o), "cert": ci, "panic": o.Panic, "via": via})
+			}
+		}
 	}
 	// one parsed object verified against the certificates in turn (nothing learnt about one certificate may carry over to another):
 	// each verdict is judged like the fresh-parse verdicts above
@@ -489,6 +554,9 @@ func thirdPartySource(sc M) (*p7Source, error) {
 	}
 	key, issuer, serial := str(sc, "key"), str(sc, "issuer"), str(sc, "serial")
 	content := prbytes(fmt.Sprint("c16:", sc["sc"]), num(sc, "size"))
+	if str(sc, "shape") == "der" {
+		content = testCert(key, issuer, serial).Raw // content that is itself exactly one DER element
+	}
 	der, err := opensslSign(str(sc, "tool"), flags, key, issuer, serial, content)
 	if err != nil {
 		return nil, err
